@@ -94,7 +94,11 @@ def cases(draw, tier, wide=False):
         for _ in range(6 if wide else 2):
             qs = draw(st.permutations(dqs))[: draw(st.integers(2, min(3, len(dqs))))]
             zsmall.append([[int(q), c] for q, c in zip(qs, [2, 3, 5])])
+    # positions (operation, parameter) written as free symbols when the circuit is simulated symbolically and bound afterwards
+    slots = [(i, j) for i, o in enumerate(ops) if o["g"] in cgen.TABLE and o["g"] != "U3" for j in range(len(o["p"]))]
+    symbolised = draw(st.lists(st.sampled_from(slots), unique=True, max_size=3)) if (slots and not wide and n <= 4 and draw(st.booleans())) else []
     return {
+        "symbolised": [list(x) for x in symbolised],
         "zsmall": zsmall, "det_final": det,
         "n": n, "det": det, "ops": ops, "seed": draw(st.integers(0, 2 ** 31 - 1)),
         "ns_small": draw(st.integers(1, max(1, 2 ** n - 1))),
@@ -123,6 +127,22 @@ def oracle(spec):
     wf = must(lambda: sim.get_wavefunction(c), "get_wavefunction")
     a = np.asarray(wf.amplitudes, dtype=complex).reshape(-1)
     require(ref.close(a, psi, 1e-9), "state vector differs from reference")
+
+    # the same circuit with some parameters left symbolic: simulate, then bind the values
+    if spec.get("symbolised"):
+        import copy as _copy
+        import sympy as _sp
+
+        sym_ops = _copy.deepcopy(spec["ops"])
+        vals = {}
+        for t_, (i_, j_) in enumerate(spec["symbolised"]):
+            vals[_sp.Symbol("s%d" % t_)] = spec["ops"][i_]["p"][j_]
+            sym_ops[i_]["p"][j_] = ["sym", "s%d" % t_]
+        cs = Circuit([cgen.build_gate(o)(*o["q"]) for o in sym_ops], n)
+        wfs = must(lambda: sim.get_wavefunction(cs), "get_wavefunction (circuit with free symbols)")
+        wfb = must(lambda: wfs.bind(vals), "Wavefunction.bind")
+        ab = np.asarray(wfb.amplitudes, dtype=complex).reshape(-1)
+        require(ref.close(ab, psi, 1e-8), lambda: f"state vector simulated symbolically and bound afterwards differs from the reference, max|d|={ref.maxdiff(ab, psi):.3g}")
 
     # exact outcome distribution
     dist = must(lambda: sim.get_measurement_outcome_distribution(c, None), "exact distribution").distribution_dict
@@ -208,6 +228,10 @@ def oracle(spec):
             cl.append("three_qubit_gate_cyclic_order")
     if n >= 9:
         cl.append("width>=9")
+    if spec.get("symbolised"):
+        cl.append("simulated_with_free_symbols")
+        if any(len(spec["ops"][i_]["q"]) >= 2 and spec["ops"][i_]["q"] != sorted(spec["ops"][i_]["q"]) for i_, _ in spec["symbolised"]):
+            cl.append("symbolic_gate_on_permuted_tuple")
     if n >= 9 and any(max(q for q, _ in small) >= 8 for small in spec.get("zsmall", [])):
         cl.append("few_qubit_operator_reaching_qubit>=8")
     swaps = [o["q"] for o in spec["ops"] if o["g"] == "SWAP" and not o["mods"]]
